@@ -695,6 +695,8 @@ class TlvModel(metaclass=TlvModelMeta):
     :vartype _encoded_fields: List[Field]
     """
     _encoded_fields: list[Field]
+    # Set to True by a model that has to keep accepting elements whose Length runs past the end of the wire
+    _allow_length_overrun: bool = False
 
     def __repr__(self):
         values = ', '.join(f'{field.name}={field.__get__(self, None).__repr__()}' for field in self._encoded_fields)
@@ -810,6 +812,8 @@ class TlvModel(metaclass=TlvModelMeta):
             offset += size_typ
             length, size_len = parse_tl_num(wire, offset)
             offset += size_len
+            if offset + length > len(wire) and not cls._allow_length_overrun:
+                raise IndexError(f'the Length of the field of type {typ} exceeds the size of wire')
             # Search for field
             i = field_pos
             while i < len(ret._encoded_fields):
